@@ -1,8 +1,11 @@
 /-
-C18 — ska lo indel calls: genotyping and insert extraction of the modelled helpers.
-First theorems; `T18_extract` / `T18_gt` are being added.
+C18 — ska lo indel calls: genotyping and insert extraction of the modelled helpers
+(`commonSuffixLen`, `extract_middle_bases`, the REF/ALT choice and genotype strings, the
+missing / present statistics). Proofs: `SkaModel/Lemmas/LOSuffix.lean`, `LOIndel.lean`.
 -/
 import SkaModel.Impl.Skalo
+import SkaModel.Lemmas.LOSuffix
+import SkaModel.Lemmas.LOIndel
 
 namespace SkaModel.Props.C18
 
@@ -12,5 +15,107 @@ open SkaModel SkaModel.Skalo
 theorem T18_calls_length (n : Nat) (i0 i1 : List UInt8) (s0 s1 : List Nat) :
     (indelCalls n i0 i1 s0 s1).2.2.length = n := by
   simp [indelCalls]
+
+/-! ### 7. `commonSuffixLen` is the length of the longest common suffix -/
+
+theorem T18_suffix (seqs : List (List UInt8)) (hne : seqs ≠ []) :
+    let n := commonSuffixLen seqs
+    -- every sequence has at least n elements
+    (∀ s ∈ seqs, n ≤ s.length) ∧
+    -- all sequences share their last n elements
+    (∀ s ∈ seqs, ∀ t ∈ seqs, s.drop (s.length - n) = t.drop (t.length - n)) ∧
+    -- it stops because a sequence is exhausted, or the elements at distance n+1 from the end differ
+    ((∃ s ∈ seqs, s.length = n) ∨
+     (∃ s ∈ seqs, ∃ t ∈ seqs, n < s.length ∧ n < t.length ∧ s[s.length - 1 - n]? ≠ t[t.length - 1 - n]?)) :=
+  LOS.suffix_spec seqs hne
+
+/-- maximality: every common suffix length is at most `commonSuffixLen` -/
+theorem T18_suffix_max (seqs : List (List UInt8)) (hne : seqs ≠ []) (m : Nat)
+    (hlen : ∀ s ∈ seqs, m ≤ s.length)
+    (hsuf : ∀ s ∈ seqs, ∀ t ∈ seqs, s.drop (s.length - m) = t.drop (t.length - m)) :
+    m ≤ commonSuffixLen seqs :=
+  LOS.suffix_max seqs hne m hlen hsuf
+
+/-! ### 8. `extract_middle_bases` -/
+
+/-- a stored insert: '-' (45) denotes the empty insert -/
+abbrev insOf := LOS.insOf
+
+theorem T18_extract (seqs : List (List UInt8)) (kGraph : Nat) (first : List UInt8) (hne : seqs ≠ [])
+    (hfirst : ∀ s ∈ seqs, s.take kGraph = first)
+    (hdash : ∀ s ∈ seqs, ∀ b ∈ s, b ≠ 45) :     -- e.g. A/C/G/T paths: a literal "-" insert cannot occur
+    let n := commonSuffixLen (seqs.map (fun s => s.drop kGraph))
+    let r := extractMiddleBases seqs kGraph
+    r.1.length = seqs.length ∧
+    -- general form (covers truncation): the tails share a suffix `suf` of length n,
+    -- path i = first ++ insert_i ++ suf, and `last` is the first kGraph elements of `suf`
+    (∃ suf : List UInt8, suf.length = n ∧ r.2 = suf.take kGraph ∧
+       ∀ i (hi : i < seqs.length), ∃ m, r.1[i]? = some m ∧ seqs[i] = first ++ insOf m ++ suf) ∧
+    -- no truncation: first_kmer ++ insert_i ++ last_kmer reconstructs path i
+    (n ≤ kGraph → r.2.length = n ∧
+       ∀ i (hi : i < seqs.length), ∃ m, r.1[i]? = some m ∧ seqs[i] = first ++ insOf m ++ r.2) ∧
+    -- truncation: `last` is only the first kGraph elements of the common suffix
+    (kGraph < n → r.2.length = kGraph) ∧
+    -- different paths have different inserts (in both cases)
+    (∀ i j (hi : i < seqs.length) (hj : j < seqs.length), seqs[i] ≠ seqs[j] →
+       r.1[i]? ≠ r.1[j]? ∧ (r.1[i]?).map insOf ≠ (r.1[j]?).map insOf) :=
+  LOS.extract_spec seqs kGraph first hne hfirst hdash
+
+/-! ### 9. genotypes and statistics -/
+
+/-- REF is the set with more distinct samples (ties: the first); alleles and genotype strings -/
+theorem T18_gt_general (n : Nat) (ins0 ins1 : List UInt8) (set0 set1 : List Nat) :
+    let swap := set0.eraseDups.length < set1.eraseDups.length
+    let refS := if swap then set1 else set0
+    let altS := if swap then set0 else set1
+    let r := indelCalls n ins0 ins1 set0 set1
+    r.1 = (if swap then ins1 else ins0) ∧ r.2.1 = (if swap then ins0 else ins1) ∧
+    r.2.2.length = n ∧
+    ∀ i, i < n → ∃ g, r.2.2[i]? = some g ∧
+      (g = "0" ↔ i ∈ refS ∧ i ∉ altS) ∧ (g = "1" ↔ i ∉ refS ∧ i ∈ altS) ∧
+      (g = "0/1" ↔ i ∈ refS ∧ i ∈ altS) ∧ (g = "." ↔ i ∉ refS ∧ i ∉ altS) :=
+  LO.indelCalls_spec n ins0 ins1 set0 set1
+
+/-- with duplicate-free sample sets: REF is the larger set (ties: the first) -/
+theorem T18_gt (n : Nat) (ins0 ins1 : List UInt8) (set0 set1 : List Nat)
+    (h0 : set0.Nodup) (h1 : set1.Nodup) :
+    let swap := set0.length < set1.length
+    let refS := if swap then set1 else set0
+    let altS := if swap then set0 else set1
+    let r := indelCalls n ins0 ins1 set0 set1
+    -- REF / ALT alleles are the corresponding inserts
+    r.1 = (if swap then ins1 else ins0) ∧ r.2.1 = (if swap then ins0 else ins1) ∧
+    r.2.2.length = n ∧
+    ∀ i, i < n → ∃ g, r.2.2[i]? = some g ∧
+      (g = "0" ↔ i ∈ refS ∧ i ∉ altS) ∧ (g = "1" ↔ i ∉ refS ∧ i ∈ altS) ∧
+      (g = "0/1" ↔ i ∈ refS ∧ i ∈ altS) ∧ (g = "." ↔ i ∉ refS ∧ i ∉ altS) := by
+  have h := LO.indelCalls_spec n ins0 ins1 set0 set1
+  rw [LO.eraseDups_of_nodup set0 h0, LO.eraseDups_of_nodup set1 h1] at h
+  exact h
+
+/-- (missing incl. heterozygous, REF-only sample exists, ALT-only sample exists) for set 0 / set 1 -/
+theorem T18_stats (n : Nat) (set0 set1 : List Nat) :
+    let r := indelStats n set0 set1
+    r.1 = ((List.range n).filter
+      (fun i => decide ((i ∈ set0 ∧ i ∈ set1) ∨ (i ∉ set0 ∧ i ∉ set1)))).length ∧
+    (r.2.1 = true ↔ ∃ i, i < n ∧ i ∈ set0 ∧ i ∉ set1) ∧
+    (r.2.2 = true ↔ ∃ i, i < n ∧ i ∉ set0 ∧ i ∈ set1) :=
+  LO.indelStats_spec n set0 set1
+
+/-! ### non-vacuity -/
+
+example : commonSuffixLen [[65, 67, 71], [84, 67, 71]] = 2 := by decide
+example : commonSuffixLen [[65, 67, 71], [67, 71]] = 2 := by decide
+example : extractMiddleBases [[65, 67, 65, 67], [65, 67, 84, 84, 65, 67]] 2 = ([[45], [84, 84]], [65, 67]) := by
+  decide
+-- truncation: the tails share 3 > kGraph = 2 elements, `last` keeps the first two of them
+example : extractMiddleBases [[65, 67, 71, 84, 65, 67], [65, 67, 84, 84, 65, 67]] 2 = ([[71], [84]], [84, 65]) := by
+  decide
+-- the `hdash` hypothesis is needed: a literal '-' insert collides with the empty-insert marker
+example : (extractMiddleBases [[65, 67, 45, 71], [65, 67, 71]] 2).1 = [[45], [45]] := by decide
+example : indelCalls 4 [65] [45] [0] [1, 2] = ([45], [65], ["1", "0", "0", "."]) := by decide
+example : indelCalls 3 [65] [45] [0, 1] [1, 2] = ([65], [45], ["0", "0/1", "1"]) := by decide
+example : indelStats 5 [0, 1] [1, 2] = (3, true, true) := by decide
+example : indelStats 2 [0, 1] [] = (0, true, false) := by decide
 
 end SkaModel.Props.C18
